@@ -87,7 +87,16 @@ def canonical_construction(ctx, rule, f, promise_join=True):
         elif chain == ["join_runs"]:
             ctx.violated(rule, f, what, "remove_empty_intervals is missing: empty runs reach the constructor (which refuses them) or survive", node=r.ast, engine="E1")
         elif not chain:
-            ctx.violated(rule, f, what, "neither canonicalisation helper is applied", node=r.ast, engine="E1")
+            # no helper call at all: either nothing is canonicalised, or both helpers were inlined.  Their bodies delete positions found
+            # by comparing neighbours (np.delete / a keep-mask over `x[:-1] == x[1:]`): if the function does that itself, the
+            # question is left open instead of reported
+            inlined = sum(1 for x in ast.walk(f.node) if isinstance(x, ast.Compare) and len(x.ops) == 1 and isinstance(x.ops[0], (ast.Eq, ast.NotEq))
+                          and isinstance(x.left, ast.Subscript) and isinstance(x.comparators[0], ast.Subscript)
+                          and isinstance(x.left.slice, ast.Slice) and isinstance(x.comparators[0].slice, ast.Slice))
+            if inlined >= 2:
+                ctx.unknown(rule, f, what, "no helper call; the function compares neighbours itself (%d comparisons): inlined canonicalisation is not judged" % inlined, node=r.ast, engine="E1")
+            else:
+                ctx.violated(rule, f, what, "neither canonicalisation helper is applied", node=r.ast, engine="E1")
         else:
             ctx.unknown(rule, f, what, "chain %s" % chain, node=r.ast, engine="E1")
     if not found:
@@ -214,6 +223,49 @@ def delete_helpers(ctx, rule):
             ctx.decide(rule, f, "%s deletes the same positions from boundaries and values, in (events, values) order" % name, ok, node=r.ast, key="co-delete", engine="E6")
 
 
+def empty_interval_direction(ctx, rule):
+    """an empty run i has events[i] == events[i+1].  delete_first=True drops the run's own entry (position i of boundaries and
+    values: the value of the empty run goes), delete_first=False drops position i+1 (the following value goes).  Whatever the
+    spelling - positions shifted by one under `not delete_first`, or a keep-mask written through [:-1] resp. [1:] - the flag must
+    select that side"""
+    f = ctx.func(RL + "remove_empty_intervals")
+    fa = ctx.fa(f)
+    what = "delete_first=True removes the empty run's own boundary and value, delete_first=False the following ones"
+    flag = "delete_first" if "delete_first" in f.params else None
+    if flag is None:
+        ctx.unknown(rule, f, what, "no delete_first parameter", key="direction", engine="E5")
+        return
+    verdicts = []
+    for n in fa.cfg.stmts():
+        if n.kind != "stmt" or not fa.cfg.is_reachable(n):
+            continue
+        polarity = None
+        for t, truth, _ in facts_at(fa, n):
+            if t.k == "param" and t.a[0] == flag:
+                polarity = truth
+        if polarity is None:
+            continue
+        st = n.ast
+        # spelling A:  positions += 1   (shift to the following entry)
+        if isinstance(st, ast.AugAssign) and isinstance(st.op, ast.Add) and isinstance(st.value, ast.Constant) and st.value.value == 1:
+            verdicts.append((polarity is False, st, "the positions are shifted to the following entry when delete_first is %s" % polarity))
+        # spelling B:  keep[:-1] = ~is_empty  (drops position i)   /   keep[1:] = ~is_empty  (drops position i + 1)
+        if isinstance(st, ast.Assign) and len(st.targets) == 1 and isinstance(st.targets[0], ast.Subscript) and isinstance(st.targets[0].slice, ast.Slice):
+            sl = st.targets[0].slice
+            own = sl.lower is None and isinstance(sl.upper, ast.UnaryOp) and isinstance(sl.upper.operand, ast.Constant) and sl.upper.operand.value == 1
+            following = sl.upper is None and isinstance(sl.lower, ast.Constant) and sl.lower.value == 1
+            negated = isinstance(st.value, ast.UnaryOp) and isinstance(st.value.op, (ast.Invert, ast.Not))
+            if (own or following) and negated:
+                verdicts.append(((own and polarity is True) or (following and polarity is False), st,
+                                 "the keep-mask is written through %s when delete_first is %s" % ("[:-1] (the run's own entry)" if own else "[1:] (the following entry)", polarity)))
+    if not verdicts:
+        ctx.unknown(rule, f, what, "neither spelling recognised", key="direction", engine="E5")
+        return
+    bad = [v for v in verdicts if not v[0]]
+    ctx.decide(rule, f, what, not bad, (bad[0][2] + ": the value that belongs to the empty run stays and a real value is dropped") if bad else "", node=(bad[0][1] if bad else verdicts[0][1]),
+               key="direction", engine="E5")
+
+
 def weighted_sum_dtype(ctx, rule, f):
     """KB: int64 * uint64 has no common integer type, numpy promotes the product to float64.  A length-weighted sum
     `lengths * values` therefore leaves the integers for unsigned 64-bit values (inexact above 2**53, float result)
@@ -233,7 +285,9 @@ def weighted_sum_dtype(ctx, rule, f):
                     continue
                 tl, tr = fa.term(x.left, n), fa.term(x.right, n)
                 for w, v, wast in ((tl, tr, x.left), (tr, tl, x.right)):
-                    is_w = all(any((y.k == "attr" and y.a[1] in ("_events", "_indices", "_row_len", "_ends", "_starts")) for y in walk(a)) for a in alts(w)) \
+                    # run lengths / array lengths: differences of boundaries, or the array's size / len (numpy int64 scalars taken from the boundaries)
+                    is_w = all(any((y.k == "attr" and y.a[1] in ("_events", "_indices", "_row_len", "_ends", "_starts", "size")) or (y.k == "call" and call_name(y) == "len" and y.a[1] and y.a[1][0].k == "param")
+                                   for y in walk(a)) for a in alts(w)) \
                         and not any(y.k == "attr" and y.a[1] == "_values" for y in walk(w))
                     is_v = any(y.k == "attr" and y.a[1] == "_values" for y in walk(v))
                     if not (is_w and is_v):
